@@ -9,7 +9,8 @@ CONSTS = []
 EXTRA_BINS = ("dgrep",)
 RULE = ("reader API (fs.NewCatFile.Start with regex.New->Serialize->Deserialize) and the real dgrep --plain CLI on generated "
         "files: lines from a word pool, RE2 patterns from a grammar (literals, anchors, classes, alternation, repetition, "
-        "non-ASCII, trailing/leading blanks, the no-op patterns '', '.', '.*'), both polarities, before/after/max from "
+        "non-ASCII, trailing/leading blanks, the no-op patterns '', '.', '.*'), files with and without a final newline (the last line's "
+        "verdict hanging on its last character), both polarities, before/after/max from "
         "-2..2*len+3; thorough adds the exhaustive sweep of all selection vectors of length <= 8 x before,after 0..3 x max "
         "0..4 x invert; non-trivial = at least one selected and one unselected line and a positive context option; "
         "distinct by (selection vector, options, pattern)")
@@ -65,7 +66,7 @@ def generate(rng, tier):
         pat = rng.choice(PATTERNS)
         opt = lambda: rng.choice([0, 0, 1, 1, 2, 3, rng.randint(0, 2 * L + 3), -1, -2, L, L + 1])
         cases.append({"lines": [l.encode().hex() for l in lines], "pattern": pat.encode().hex(), "invert": rng.random() < 0.35,
-                      "before": opt(), "after": opt(), "max": opt(), "via": "api"})
+                      "before": opt(), "after": opt(), "max": opt(), "via": "api", "nonl": rng.random() < 0.2})
     # all three options positive, more matches than max, gaps around the after/before distances
     for i in range(120 if tier == "quick" else 2000):
         m, a, b = rng.randint(1, 3), rng.randint(1, 3), rng.randint(1, 4)
@@ -75,6 +76,17 @@ def generate(rng, tier):
         lines += ["info"] * rng.randint(0, a + 2)
         cases.append({"lines": [l.encode().hex() for l in lines], "pattern": b"ERROR".hex(), "invert": False,
                       "before": b, "after": a, "max": m, "via": "api" if i % 10 else "cli"})
+    # files whose last line is not newline-terminated, the verdict of that line hanging on its last character
+    import re as _re
+    for i in range(80 if tier == "quick" else 1500):
+        L = rng.choice([1, 1, 2, 3, 5])
+        pool = [w for w in WORDS if w and b"\xac" not in w.encode()]
+        lines = [rng.choice(pool) for _ in range(L)]
+        last = lines[-1]
+        pat = rng.choice([_re.escape(last[-1]) + "$", _re.escape(last) + "$", _re.escape(last[-1]), "[^0-9:]$", "^\\d+:.$" if len(last) == 1 else _re.escape(last[-2:]) + "$"])
+        cases.append({"lines": [l.encode().hex() for l in lines], "pattern": pat.encode().hex(), "invert": rng.random() < 0.3,
+                      "before": rng.choice([0, 0, 1, 2]), "after": rng.choice([0, 0, 1]), "max": rng.choice([0, 0, 1, 2]),
+                      "via": "api" if i % 8 else "cli", "nonl": True})
     ncli = 40 if tier == "quick" else 400
     for i in range(ncli):
         L = rng.choice([1, 3, 6, 10, 25])
@@ -83,7 +95,7 @@ def generate(rng, tier):
         lines = [rng.choice(pool) for _ in range(L)]
         pat = rng.choice([p for p in PATTERNS if p not in ("", "€")])   # the CLI refuses an empty -regex
         cases.append({"lines": [l.encode().hex() for l in lines], "pattern": pat.encode().hex(), "invert": rng.random() < 0.35,
-                      "before": rng.choice([0, 1, 2, 5]), "after": rng.choice([0, 1, 2, 5]), "max": rng.choice([0, 1, 2, 3]), "via": "cli"})
+                      "before": rng.choice([0, 1, 2, 5]), "after": rng.choice([0, 1, 2, 5]), "max": rng.choice([0, 1, 2, 3]), "via": "cli", "nonl": rng.random() < 0.2})
     if tier == "thorough":
         for L in range(0, 9):
             for bits in itertools.product([True, False], repeat=L):
@@ -100,7 +112,8 @@ def _cli(env, d, k, c):
     texts = ["%05d:%s" % (i, bytes.fromhex(l).decode()) for i, l in enumerate(c["lines"])]
     path = os.path.join(d, "g%05d.log" % k)
     with open(path, "wb") as f:
-        f.write("".join(t + "\n" for t in texts).encode())
+        body = "".join(t + "\n" for t in texts)
+        f.write((body[:-1] if c.get("nonl") and texts else body).encode())
     args = ["--plain", "--regex", bytes.fromhex(c["pattern"]).decode(), "--before", str(c["before"]), "--after", str(c["after"]),
             "--max", str(c["max"]), "--files", path]
     if c["invert"]:
